@@ -92,8 +92,9 @@ func (c *cgen) precompileInput(idx int) []byte {
 		in := append([]byte{}, ecValid[g.intn(len(ecValid))]...)
 		switch g.intn(10) {
 		case 0: // other recovery id
-			in[63] ^= 1 ^ 2 // 27<->28 swap: 27=0x1b,28=0x1c
-			if in[63] != 27 && in[63] != 28 {
+			if in[63] == 27 {
+				in[63] = 28
+			} else {
 				in[63] = 27
 			}
 		case 1:
